@@ -198,23 +198,22 @@ def decodeRecord (O : Ops) (kIdx : Nat) (block : Bytes) : Option Bytes :=
   | some x => if x.isEmpty || x.length ≠ kIdx then none else some x
   | none => none
 
-/-- apply one usable record: `int(chr(marker_str[0]))`, `struct.unpack('>Q', marker_str[1:])`,
-rewrite the marker when the bytes at that position differ. `none` = the tool raises (the kind
-byte is not a digit, or no such marker kind). -/
+/-- apply one usable record: `int(chr(marker_str[0]))`, `struct.unpack('>Q', marker_str[1:])`; records
+whose kind is not 1 or 2 or whose marker would not lie inside the file are skipped (sanity check of
+a possibly mis-repaired block); otherwise the marker is rewritten when the bytes at that position
+differ. Always `some` (the tool no longer raises here); the `Option` is kept for the fold. -/
 def applyRecord (file : Bytes) (rec : Bytes) : Option Bytes :=
   match rec with
   | [] => some file
   | c :: posBytes =>
-    if !isDigit c then none
+    if !isDigit c then some file
     else
-      let kind := c - 48
-      -- `markers[marker_type-1]`: kind 0 indexes the last marker (Python negative index), kind ≥ 3 raises
-      let mk : Option Bytes := if kind = 0 then some delim else markerOfKind kind
-      match mk with
-      | none => none
+      match markerOfKind (c - 48) with
+      | none => some file
       | some m =>
         let pos := beNat posBytes
-        if (file.drop pos).take m.length = m then some file else some (writeAt file pos m)
+        if pos + m.length > file.length then some file
+        else if (file.drop pos).take m.length = m then some file else some (writeAt file pos m)
 
 def chunks (n : Nat) : Nat → Bytes → List Bytes
   | 0, _ => []
